@@ -733,10 +733,20 @@ int main(int argc, char **argv)
             enum udict_type type = UDICT_TYPE_END;
             int count = 0;
             char tmp[16];
+            /* every other walk hands udict_iterate a name the CALLER owns (a copy of what the previous
+             * call returned): the cursor is the (name, type) pair, not the address of the name */
+            static unsigned iter_calls;
+            bool own = (iter_calls++ & 1) != 0;
+            static char own_name[70000];
             while (d != NULL) {
                 if (!ubase_check(udict_iterate(d, &name, &type))) { printf("%sERR", count ? " " : ""); count++; break; }
                 if (type == UDICT_TYPE_END)
                     break;
+                if (own && name != NULL && strlen(name) < sizeof(own_name)) {
+                    memset(own_name, 0, 8);
+                    strcpy(own_name + 8, name);
+                    name = own_name + 8;
+                }
                 if (++count > 4096) { printf(" LOOP"); break; }
                 printf("%s%s:%s", count > 1 ? " " : "", tok_by_type(type, tmp), name ? name : "-");
             }
